@@ -534,6 +534,22 @@ def rule_compound(prog, rows):
     return obs
 
 
+def rule_compound_gate(prog, rows):
+    """`x op= e` fails when `x op e` fails: in the handler registered under a compound-assignment literal an operand
+    that is type-checked at all is type-checked on every path to an Ok result (HGATE, read for C06: a short cut such
+    as `b == 0 => return Ok(left)` binds / keeps a target that the plain operator would have rejected)"""
+    import r_value
+    hs = []
+    for (cu, bk), names in sorted(_groups(rows).items()):
+        if any(n.endswith('=') and n not in ('==', '!=', '<=', '>=', '=') for n in names):
+            h = prog.by_id.get(cu)
+            if h is not None and h not in hs:
+                hs.append(h)
+    obs = r_value.rule_hgate(prog, hs)
+    obs.append(floor('HGATE', 'compound-handlers', len(hs), 1, 'handler closures registered under compound-assignment operators'))
+    return obs
+
+
 UNARY_SPEC = {'-': ('unary', 'neg'), '!': ('unary', 'not'), 'not': ('unary', 'not'), '++': ('arith', 'add'), '--': ('arith', 'sub'), '+': None}
 
 
